@@ -48,7 +48,7 @@ def sub(tier, cfg, out):
     _cfg = cfg
     cases = corpora.all_cases('quick' if tier == 'quick' else 'thorough')
     if tier == 'quick':
-        cases = thin(cases)
+        cases = thin(cases, cap=60, cheap_cap=500)
     res = vf.pmap(check_case, cases, case_timeout=300)
     viol = []
     fns = {}
@@ -101,15 +101,46 @@ def word_level(tier, cfg, classes=MEMCLASS):
     p = col.parts.get('catalogue_calls', {})
     return {'viol': out, 'calls': int(p.get('evaluations', 0)), 'cells': int(p.get('cells', 0)), 'functions': int(p.get('functions', 0)), 'caps': col.caps}
 
-def thin(cases):
-    """quick tier: at most 60 cases per function, evenly spread (the full corpora run in thorough)"""
+CHEAP_GROUPS = ('belt', 'misc', 'codec', 'core', 'util', 'bash', 'brng', 'botp')
+def case_shape(c):
+    """the shape of a case: buffer lengths, NULL-ness, small scalars (values of buffers are not part of it)"""
+    out = []
+    for k, v in sorted(c.items()):
+        if isinstance(v, (bytes, bytearray, list, tuple)):
+            out.append((k, len(v)))
+        elif v is None or isinstance(v, bool):
+            out.append((k, v))
+        elif isinstance(v, int):
+            out.append((k, v if abs(v) < 100000 else 'big'))
+        else:
+            out.append((k, str(v)[:24]))
+    return tuple(out)
+
+def thin(cases, cap=60, cheap_cap=None):
+    """quick tier: at most cap cases per function (cheap_cap for the microsecond-scale groups), chosen so that as many DISTINCT SHAPES
+    (length tuples) as possible survive: shapes are spread evenly first, a second case of a shape is taken only when every shape has one
+    (the full corpora run in thorough)"""
     by = {}
     for c in cases:
         by.setdefault(c[0], []).append(c)
     out = []
     for f, cs in by.items():
-        step = max(1, len(cs) // 60)
-        out += cs[::step]
+        lim = cheap_cap if (cheap_cap and cat.CAT[f].group in CHEAP_GROUPS) else cap
+        if len(cs) <= lim:
+            out += cs; continue
+        shapes = {}
+        for c in cs:
+            shapes.setdefault(case_shape(c[1]), []).append(c)
+        keys = list(shapes)
+        if len(keys) >= lim:
+            step = len(keys) / float(lim)
+            out += [shapes[keys[int(i * step)]][0] for i in range(lim)]
+        else:
+            picked = [shapes[k][0] for k in keys]
+            rest = [c for k in keys for c in shapes[k][1:]]
+            need = lim - len(picked)
+            step = max(1, len(rest) // max(1, need))
+            out += picked + rest[::step][:need]
     return out
 
 def run(tier):
